@@ -249,7 +249,7 @@ def mdp : P String := do
   -- states (`mdpFlatObj`) is decided exactly below and reported as a correspondence clause
   let c := mdpStatedObj h
   -- model: backProject, then the generated LP
-  let gModel := h.map (backProject1 S A ddn)
+  let gModel := h.map (bpModel S A ddn)
   let joined := AITB.Gen.mdpJoinsFinals
   let F := S ++ A
   let stGen := genRun F F.length 1 (mdpSetup S A γ h gModel R)
